@@ -1,6 +1,7 @@
 package props
 
 import (
+	"encoding/base64"
 	"encoding/json"
 	"fmt"
 	"math/big"
@@ -8,6 +9,7 @@ import (
 	"path/filepath"
 	"strings"
 
+	tmed "github.com/cometbft/cometbft/crypto/ed25519"
 	sdk "github.com/cosmos/cosmos-sdk/types"
 	banktypes "github.com/cosmos/cosmos-sdk/x/bank/types"
 	stakingtypes "github.com/cosmos/cosmos-sdk/x/staking/types"
@@ -188,6 +190,12 @@ func (m *evmWorld) packPCall(w *e.World, c *PCall) ([]byte, bool) {
 	case "staking.revoke":
 		to, _ := m.resolveAddr(w, c.To)
 		bz, err = loadABI("staking").Pack(c.M, to, c.Methods)
+	case "staking.createValidator":
+		type descT struct{ Moniker, Identity, Website, SecurityContact, Details string }
+		type commT struct{ Rate, MaxRate, MaxChangeRate *big.Int }
+		pk := tmed.GenPrivKeyFromSecret(append([]byte("haqqsim-new-validator"), who.Bytes()...)).PubKey().Bytes()
+		bz, err = loadABI("staking").Pack(c.M, descT{Moniker: "sim-" + c.Who}, commT{big.NewInt(100000000000000000), big.NewInt(200000000000000000), big.NewInt(10000000000000000)},
+			big.NewInt(1), who, sdk.ValAddress(who.Bytes()).String(), base64.StdEncoding.EncodeToString(pk), amt)
 	case "staking.delegation", "staking.unbondingDelegation":
 		bz, err = loadABI("staking").Pack(c.M, who, val)
 	case "distribution.withdrawDelegatorRewards":
@@ -274,7 +282,11 @@ func genPCall(w *e.World, r *e.RNG, signer, self int) *PCall {
 		amt = big.NewInt(r.Range(1, 1_000_000_000))
 	}
 	c.Amt = amt.String()
-	switch r.Weighted([]int{6, 3, 2, 1, 4, 3, 1, 2, 2}) {
+	switch r.Weighted([]int{6, 3, 2, 1, 4, 3, 1, 2, 2, 1}) {
+	case 9:
+		// the signer becomes a validator (once per account; later attempts fail)
+		c.PC, c.M, c.Who = "staking", "createValidator", fmt.Sprintf("acct:%d", signer)
+		c.Amt = r.Amount(e.BigS("2000000000000000000")).String()
 	case 0:
 		c.PC, c.M = "staking", "delegate"
 	case 1:
@@ -349,6 +361,16 @@ func genProgram(w *e.World, r *e.RNG, signer, self, depth int, budget *int) []*e
 			}
 			prog = append(prog, node)
 		case 2: // value to an EOA
+			if r.Chance(0.25) {
+				// touch (zero value) or pay a module account: staking pools, distribution, fee collector
+				mods := []string{stakingtypes.BondedPoolName, stakingtypes.NotBondedPoolName, "distribution", "fee_collector", "erc20"}
+				node := &evmprog.Node{Kind: evmprog.OpCall, Target: common.BytesToAddress(e.ModuleAddr(mods[r.Intn(len(mods))]).Bytes()).Hex(), Catch: true}
+				if r.Chance(0.5) {
+					node.Value = r.Amount(big.NewInt(1_000_000_000)).String()
+				}
+				prog = append(prog, node)
+				continue
+			}
 			prog = append(prog, &evmprog.Node{Kind: evmprog.OpCall, Target: fmt.Sprintf("acct:%d", w.AnyAcct(r)), Value: r.Amount(big.NewInt(1_000_000_000)).String(), Catch: true})
 		case 3:
 			if w.Cfg.Flags["small_vals"] == 1 {
